@@ -23,7 +23,7 @@ let hexval c =
   | _ -> failwith "bad hex digit"
 
 (* "-" is the empty byte string *)
-let bytes_of_hex (s : string) : n list =
+let bytes_of_hex (s : String.t) : n list =
   if s = "-" || s = "" then []
   else begin
     let l = String.length s / 2 in
@@ -34,7 +34,7 @@ let bytes_of_hex (s : string) : n list =
     go (l - 1) []
   end
 
-let hex_of_bytes (l : n list) : string =
+let hex_of_bytes (l : n list) : String.t =
   match l with
   | [] -> "-"
   | _ ->
@@ -42,9 +42,9 @@ let hex_of_bytes (l : n list) : string =
     List.iter (fun x -> Buffer.add_string b (Printf.sprintf "%02x" (int_of_n x))) l;
     Buffer.contents b
 
-let split_tab (s : string) : string list = String.split_on_char '\t' s
+let split_tab (s : String.t) : String.t list = String.split_on_char '\t' s
 
-let iter_lines (f : string -> unit) : unit =
+let iter_lines (f : String.t -> unit) : unit =
   try
     while true do
       let l = input_line stdin in
